@@ -587,6 +587,24 @@ def ref_ops(ctx: Ctx) -> RuleResult:
             elif mt is None:
                 raise Undecided(f"body of operator function {fname} not recognised")
     r.require(len(bound) >= 30, f"only {len(bound)} operator bindings found")
+    # the boolean helpers exported for use in describing functions
+    want = {"and_": ast.And, "or_": ast.Or}
+    n_helpers = 0
+    for f in pkg_funcs(ctx):
+        if f.cls is None and f.parent is None and f.name in ("and_", "or_", "not_"):
+            n_helpers += 1
+            rets = [n for n in iter_own_nodes(f.node) if isinstance(n, ast.Return)]
+            ps = [a.arg for a in f.node.args.args]
+            e = rets[0].value if len(rets) == 1 else None
+            if f.name == "not_":
+                okh = isinstance(e, ast.UnaryOp) and isinstance(e.op, ast.Not) and dotted(e.operand) == ps[0]
+            else:
+                okh = isinstance(e, ast.BoolOp) and isinstance(e.op, want[f.name]) and [dotted(v) for v in e.values] == ps[:2]
+            r.ob(okh, {"helper": f.name, "body": norm_src(e) if e is not None else None})
+            if not okh:
+                r.violate(f"{f.short}: does not compute '{f.name.rstrip('_')}' of its operands", f.loc(),
+                          "and_/or_/not_ stand for the Python operators that cannot be overloaded on references", norm_src(rets[0]) if rets else None)
+    r.require(n_helpers == 3, f"boolean helpers and_/or_/not_: found {n_helpers}")
     for op in list(BINOPS) + ["divmod"]:
         if f"__{op}__" in bound:
             tw = bound.get(f"__r{op}__")
@@ -1092,6 +1110,25 @@ def ref_rewire(ctx: Ctx) -> RuleResult:
                       "several inputs the reference silently follows the wrong argument", norm_src(eq))
         else:
             olds.add(eq.comparators[0].id)
+    # a reference found while walking one field is written back into the same field, at the position it was found
+    for n in iter_own_nodes(f.node):
+        if isinstance(n, ast.For) and isinstance(n.iter, ast.Call) and isinstance(n.target, ast.Tuple):
+            walked = None
+            src = (n.iter.args[0] if n.iter.args else None) if dotted(n.iter.func) == "enumerate" else \
+                (n.iter.func.value if isinstance(n.iter.func, ast.Attribute) and n.iter.func.attr == "items" else None)
+            if isinstance(src, ast.Attribute) and src.attr in fields and is_xn(ctx, ctx.type_of(f, src.value)):
+                walked = (dotted(src.value), src.attr)
+                idx = dotted(n.target.elts[0])
+                for w in own_walk(n):
+                    if isinstance(w, ast.Assign) and isinstance(w.targets[0], ast.Subscript) and isinstance(w.targets[0].value, ast.Attribute) \
+                            and w.targets[0].value.attr in fields and isinstance(w.value, ast.Call) and ctx.T.resolve_callee(f, w.value) == uq:
+                        wrote = (dotted(w.targets[0].value.value), w.targets[0].value.attr)
+                        okw = wrote == walked and dotted(w.targets[0].slice) == idx
+                        r.ob(okw, {"walked": ".".join(walked), "written": f"{'.'.join(wrote)}[{norm_src(w.targets[0].slice)}]"})
+                        if not okw:
+                            r.violate(f"BaseDAG.compose: a reference found in '{walked[1]}' is written into '{wrote[1]}[{norm_src(w.targets[0].slice)}]'",
+                                      f.loc(w), "the reference that pointed at the replaced input stays in place (dangling id) and another slot is "
+                                      "overwritten", norm_src(w))
     same = len(olds) <= 1
     r.ob(same, {"all fields compare with": sorted(olds)})
     if not same:
